@@ -686,8 +686,9 @@ fn do_typed<T: Clone + Send + Sync + 'static + std::fmt::Debug>(m: &mut ArgMatch
             Ok(None) => AOut::None,
             Err(e) => conv(e),
         },
+        // occurrences keep their structure: one "[v, w]" string per occurrence (empty ones too)
         "get_occurrences" => match m.try_get_occurrences::<T>(id) {
-            Ok(Some(v)) => AOut::Vals(v.flatten().map(f).collect()),
+            Ok(Some(v)) => AOut::Vals(v.map(|o| format!("[{}]", o.map(f).collect::<Vec<_>>().join(", "))).collect()),
             Ok(None) => AOut::None,
             Err(e) => conv(e),
         },
@@ -702,7 +703,7 @@ fn do_typed<T: Clone + Send + Sync + 'static + std::fmt::Debug>(m: &mut ArgMatch
             Err(e) => conv(e),
         },
         _ => match m.try_remove_occurrences::<T>(id) {
-            Ok(Some(v)) => AOut::Vals(v.flatten().map(|x| f(&x)).collect()),
+            Ok(Some(v)) => AOut::Vals(v.map(|o| format!("[{}]", o.map(|x| f(&x)).collect::<Vec<_>>().join(", "))).collect()),
             Ok(None) => AOut::None,
             Err(e) => conv(e),
         },
@@ -796,6 +797,11 @@ fn model_access(md: &mut AModel, o: &AOp) -> AOut {
                     Some(v) => AOut::Vals(vec![v.clone()]),
                     None => AOut::None,
                 };
+            }
+            if op.ends_with("_occurrences") {
+                // every occurrence of these arguments holds one value, except `e`: one occurrence
+                // without any
+                return AOut::Vals(if o.id == "e" { vec!["[]".to_string()] } else { all.iter().map(|v| format!("[{}]", v)).collect() });
             }
             AOut::Vals(all)
         }
